@@ -1,67 +1,2 @@
-(* GENERATED by harness/translate.py from tftp.py, tftpd.py -- do not edit.
-   Regenerated on every check run from /repo's working tree. *)
-From Coq Require Import List NArith ZArith Bool String.
-Import ListNotations.
-
-Open Scope N_scope.
-Definition tftp_min_blksize : N := 8%N.
-Definition tftp_def_blksize : N := 512%N.
-Definition tftp_max_blksize : N := 65464%N.
-Definition tftp_min_timeout_ns : N := 10000000%N.
-Definition tftp_max_timeout_ns : N := 255000000000%N.
-Definition tftp_def_timeout_ns : N := 1000000000%N.
-Definition tftp_blksize_name : list N := [98%N; 108%N; 107%N; 115%N; 105%N; 122%N; 101%N].
-Definition tftp_timeout_name : list N := [116%N; 105%N; 109%N; 101%N; 111%N; 117%N; 116%N].
-Definition tftp_utimeout_name : list N := [117%N; 116%N; 105%N; 109%N; 101%N; 111%N; 117%N; 116%N].
-Definition tftp_tsize_name : list N := [116%N; 115%N; 105%N; 122%N; 101%N].
-Definition tftp_binary_name : list N := [111%N; 99%N; 116%N; 101%N; 116%N].
-Definition tftp_netascii_name : list N := [110%N; 101%N; 116%N; 97%N; 115%N; 99%N; 105%N; 105%N].
-Definition tftp_modes : list (list N) := [[110%N; 101%N; 116%N; 97%N; 115%N; 99%N; 105%N; 105%N]; [111%N; 99%N; 116%N; 101%N; 116%N]].
-Definition tftp_options : list (list N) := [[98%N; 108%N; 107%N; 115%N; 105%N; 122%N; 101%N]; [116%N; 105%N; 109%N; 101%N; 111%N; 117%N; 116%N]; [116%N; 115%N; 105%N; 122%N; 101%N]; [117%N; 116%N; 105%N; 109%N; 101%N; 111%N; 117%N; 116%N]].
-Definition op_RRQ : N := 1%N.
-Definition op_WRQ : N := 2%N.
-Definition op_DATA : N := 3%N.
-Definition op_ACK : N := 4%N.
-Definition op_ERROR : N := 5%N.
-Definition op_OACK : N := 6%N.
-Definition error_codes : list N := [0%N; 1%N; 2%N; 3%N; 4%N; 5%N; 6%N; 7%N; 8%N].
-Definition err_UNDEFINED : N := 0%N.
-Definition err_NOT_FOUND : N := 1%N.
-Definition err_NOT_AUTH : N := 2%N.
-Definition err_DISK_FULL : N := 3%N.
-Definition err_BAD_OP : N := 4%N.
-Definition err_UNKNOWN_ID : N := 5%N.
-Definition err_EXISTS : N := 6%N.
-Definition err_UNKNOWN_USER : N := 7%N.
-Definition err_INVALID_OPT : N := 8%N.
-Definition error_messages : list (N * list N) := [(0%N, [85%N; 110%N; 100%N; 101%N; 102%N; 105%N; 110%N; 101%N; 100%N; 32%N; 101%N; 114%N; 114%N; 111%N; 114%N]); (1%N, [70%N; 105%N; 108%N; 101%N; 32%N; 110%N; 111%N; 116%N; 32%N; 102%N; 111%N; 117%N; 110%N; 100%N]); (2%N, [65%N; 99%N; 99%N; 101%N; 115%N; 115%N; 32%N; 118%N; 105%N; 111%N; 108%N; 97%N; 116%N; 105%N; 111%N; 110%N]); (3%N, [68%N; 105%N; 115%N; 107%N; 32%N; 102%N; 117%N; 108%N; 108%N; 32%N; 111%N; 114%N; 32%N; 97%N; 108%N; 108%N; 111%N; 99%N; 97%N; 116%N; 105%N; 111%N; 110%N; 32%N; 101%N; 120%N; 99%N; 101%N; 101%N; 100%N; 101%N; 100%N]); (4%N, [73%N; 108%N; 108%N; 101%N; 103%N; 97%N; 108%N; 32%N; 84%N; 70%N; 84%N; 80%N; 32%N; 111%N; 112%N; 101%N; 114%N; 97%N; 116%N; 105%N; 111%N; 110%N]); (5%N, [85%N; 110%N; 107%N; 110%N; 111%N; 119%N; 110%N; 32%N; 116%N; 114%N; 97%N; 110%N; 115%N; 102%N; 101%N; 114%N; 32%N; 73%N; 68%N]); (6%N, [70%N; 105%N; 108%N; 101%N; 32%N; 97%N; 108%N; 114%N; 101%N; 97%N; 100%N; 121%N; 32%N; 101%N; 120%N; 105%N; 115%N; 116%N; 115%N]); (7%N, [78%N; 111%N; 32%N; 115%N; 117%N; 99%N; 104%N; 32%N; 117%N; 115%N; 101%N; 114%N])].
-Definition data_block_min : N := 1%N.
-Definition data_block_max : N := 65535%N.
-Definition ack_block_min : N := 0%N.
-Definition ack_block_max : N := 65535%N.
-Definition dispatch_table_standard : bool := true.
-Definition regexes_standard : bool := true.
-Definition oack_uses_rrq_options_re : bool := true.
-Definition gen_finished_cmp (s bs : N) : bool := (s <? bs)%N.
-Definition gen_next_block_cmp (r n : N) : bool := ((r + (1)%N)%N =? n)%N.
-Definition gen_already_acked_cmp (n r : N) : bool := (n <=? r)%N.
-Definition gen_tick_recv_cmp (now lr tmo : Z) : bool := (tmo <? (now - lr)%Z)%Z.
-Definition gen_tick_giveup_cmp (ls lr tmo : Z) : bool := ((tmo * (5)%Z)%Z <? (ls - lr)%Z)%Z.
-Definition gen_tick_resend_cmp (now ls tmo : Z) : bool := (tmo <? (now - ls)%Z)%Z.
-Definition poll_interval_ms : N := 10%N.
-Definition client_open_mode_rb : bool := true.
-Definition client_state_defaults_standard : bool := true.
-Definition canon_TFTPClientState_negotiate : string := "948a6a154477490b"%string.
-Definition canon_TFTPHandler_handle : string := "47b32213fc3a30c7"%string.
-Definition canon_TFTPHandler_finish : string := "833065fdf2cdff87"%string.
-Definition canon_TFTPBaseHandler_do_RRQ : string := "becd4f49731b7d53"%string.
-Definition canon_TFTPBaseHandler_do_ERROR : string := "9f730a1a70a6144b"%string.
-Definition canon_TFTPSubHandler_handle : string := "1c784f7da8b1dfc2"%string.
-Definition canon_TFTPSubHandler_finish : string := "3e4b8f7cc32a9191"%string.
-Definition canon_TFTPSubHandler_do_ACK : string := "e45a194af721a9be"%string.
-Definition canon_TFTPSubHandler_do_ERROR : string := "554ef75d94987b16"%string.
-Definition canon_TFTPSubServers_add : string := "1ec69805d1449b3d"%string.
-Definition canon_TFTPSubServers__remove : string := "a2a437091f936cba"%string.
-Definition canon_TFTPSubServers_run : string := "cc485756500fd89b"%string.
-Definition canon_TFTPSubServers_close : string := "78f06a5d2de3425d"%string.
-Definition canon_TFTPBaseServer_server_close : string := "50aa2c7ee87a1842"%string.
+(* translation failed: TranslateError: poll_interval not found *)
+Definition translation_failed : False := I.
